@@ -183,6 +183,28 @@ def rules(ctx):
         need = {"mut:2": "vehicles", "mut:3": "tours", "mut:7": "vehicle_ids_grouped_and_sorted", "mut:6": "dummy_tours", "mut:8": "dummy_ids_sorted"}
         miss = [n for ch, n in need.items() if ch not in s.channels]
         ctx.decide(o, not miss, "all five collections are written", "update_tours never writes: %s" % ", ".join(miss))
+    o, fdr = ctx.require_fn("R4.tour-vanishes-only-if-nothing-is-left", "T1", T("remove"),
+                            "Tour::remove reports 'nothing left' for a dummy tour only when no node remains, for a real tour when only depots remain")
+    if fdr is not None:
+        nones = [i for i in fdr.body.instrs() if i.kind == "assign" and i.rv_kind() == "agg" and i.rv.get("adt") == "core::option::Option"
+                 and i.rv.get("v") == "None" and "Tour" in fdr.body.local_ty(i.place.local)]
+        ok = bool(nones)
+        for i in nones:
+            srcs = [cal for sw, cal, d in controlling_sources(fdr, i)]
+            at = fdr.slice(seed_blocks=[i.bb])["atoms"]
+            if not (T("is_dummy") in srcs or field(TOUR, "is_dummy") in at and any((c or "").endswith("is_dummy") for c in srcs)):
+                if field(TOUR, "is_dummy") not in fdr.slice(seed_blocks=[i.bb], control=True)["atoms"] or not any(
+                        d is not None and ((d.kind == "call" and (d.callee or "").endswith("is_dummy")) or (d.kind == "assign")) for sw, cal, d in controlling_sources(fdr, i)):
+                    ok = False
+        # precise form: a controlling condition reads the dummy flag
+        reads = False
+        for i in nones:
+            for sw, cal, d in controlling_sources(fdr, i):
+                cond = fdr.slice(seed_locals=fdr.operand_uses(sw.ops[0]), control=False)["atoms"]
+                if field(TOUR, "is_dummy") in cond or call(T("is_dummy")) in cond:
+                    reads = True
+        ctx.decide(o, bool(nones) and reads, "the None result is decided on the dummy flag and the remaining length",
+                   "the 'nothing left' decision does not look at the dummy flag: a dummy tour left with one or two trips is deleted and its trips vanish")
     formation_edits(ctx)
     from .C10 import fresh_ids
     fresh_ids(ctx, sites)
